@@ -8,10 +8,11 @@ them, obtained from the live /repo on every run by introspection:
   default-constructed instance (and every `omp_directive` flavour) to the nodes of probe programs,
   (b) named in the source of the class (constructor call or class attribute).
 A new or changed class changes the generated Lean lists and breaks the pinned theorems of Props/C10."""
+import ast
 import importlib
 import inspect
 import pkgutil
-import re
+import textwrap
 
 import common  # noqa: F401
 from props import c10_real as R
@@ -20,6 +21,8 @@ PROBE = ("module m\ncontains\nsubroutine s(a, n)\n  integer, intent(in) :: n\n  
          "  integer :: i, j\n  do i = 1, n\n    do j = 1, n\n      a(j,i) = 3.0\n    end do\n  end do\n"
          "  a(1,1) = a(1,1) + 1.0\nend subroutine s\nend module m\n")
 # contexts some transformations need before they accept anything
+# transformations applicable to generic PSyIR (the API-specific ones need an Invoke: source only)
+GENERIC = ("psyclone.transformations", "psyclone.psyir.transformations")
 CONTEXTS = (None, "ompParallel", "ompSingleInParallel", "accParallel")
 
 
@@ -42,7 +45,16 @@ def load_all():
             pass           # optional dependencies (e.g. graphviz front ends)
 
 
+_MEMO = {}
+
+
 def directive_classes():
+    if "dc" not in _MEMO:
+        _MEMO["dc"] = _directive_classes()
+    return _MEMO["dc"]
+
+
+def _directive_classes():
     """[(class name, owner of validate_global_constraints, role, kind)] sorted by name; role is
     'kind' (an exact model kind), 'abstract' (never instantiated by a transformation: a base class),
     'subclass:<kind>' (API-specific subclass of a modelled class, same checks)."""
@@ -85,7 +97,16 @@ def _directive_types(root):
     return {type(d).__name__ for d in root.walk(n.Directive)}
 
 
+_CTX = {}
+
+
 def _prepare(ctx):
+    if ctx not in _CTX:
+        _CTX[ctx] = _prepare_uncached(ctx)
+    return _CTX[ctx]
+
+
+def _prepare_uncached(ctx):
     from psyclone import transformations as T
     n = R._nodes()
     root, routine = R.parse(PROBE)
@@ -132,11 +153,19 @@ def observed_creations(tcls):
     for trans in _instances(tcls):
         for ctx in CONTEXTS:
             root0, _, n = _prepare(ctx)
-            ntargets = len(root0.walk(n.Node))
+            kinds = (n.Routine, n.Schedule, n.Loop, n.Assignment, n.Directive)
+            ntargets = len(root0.walk(kinds))
             for i in range(ntargets):
                 for as_list in (False, True):
+                    node = root0.walk(kinds)[i]
+                    if as_list and isinstance(node, (n.Routine, n.Schedule)):
+                        continue
+                    try:                      # cheap filter on the shared tree; apply only on a copy
+                        trans.validate([node] if as_list else node, {"force": True})
+                    except Exception:  # pylint: disable=broad-except
+                        continue
                     root = root0.copy()
-                    node = root.walk(n.Node)[i]
+                    node = root.walk(kinds)[i]
                     before = _directive_types(root)
                     try:
                         trans.apply([node] if as_list else node, {"force": True})
@@ -151,22 +180,33 @@ def creators():
     subclass that creates a Directive (observed or named in its source)."""
     from psyclone.psyGen import Transformation
     load_all()
-    dnames = [c[0] for c in directive_classes()]
-    rx = re.compile(r"\b(" + "|".join(dnames) + r")\s*\(")
+    dnames = {c[0] for c in directive_classes()}
     out = []
-    for tcls in sorted(set(_all_subclasses(Transformation)), key=lambda c: c.__name__):
+    own = {}
+    tclasses = sorted(set(_all_subclasses(Transformation)), key=lambda c: c.__name__)
+    for tcls in tclasses:
         made = set()
         try:
-            src = inspect.getsource(tcls)
-        except (OSError, TypeError):
-            src = ""
-        # constructor calls `XDirective(` in the class body, outside isinstance(...) tests
-        for line in src.splitlines():
-            if "isinstance" in line or line.strip().startswith(("#", ":", "'")):
-                continue
-            made |= set(rx.findall(line))
-        if not inspect.isabstract(tcls):
+            tree = ast.parse(textwrap.dedent(inspect.getsource(tcls)))
+        except (OSError, TypeError, SyntaxError):
+            tree = None
+        # constructor calls `XDirective(...)` / `XDirective.create(...)` anywhere in the class body
+        for call in (ast.walk(tree) if tree else ()):
+            if isinstance(call, ast.Call):
+                f = call.func
+                if isinstance(f, ast.Attribute) and f.attr == "create":
+                    f = f.value
+                name = f.id if isinstance(f, ast.Name) else f.attr if isinstance(f, ast.Attribute) else None
+                if name in dnames:
+                    made.add(name)
+        if not inspect.isabstract(tcls) and tcls.__module__.startswith(GENERIC):
             made |= observed_creations(tcls)
+        own[tcls] = made
+    for tcls in tclasses:
+        # a subclass (e.g. the API-specific versions) creates what the classes it inherits from create
+        made = set()
+        for base in tcls.__mro__:
+            made |= own.get(base, set())
         if made:
             out.append((tcls.__name__, sorted(made)))
     return out
